@@ -56,7 +56,9 @@ func fieldUses(funcs map[*ssa.Function]bool) (reads, writes map[*types.Var]bool)
 						if u.Addr == ssa.Value(x) {
 							writes[r.Field] = true
 						} else {
+							// the field's address is stored somewhere (a table of out-pointers): both
 							reads[r.Field] = true
+							writes[r.Field] = true
 						}
 					case *ssa.UnOp:
 						if u.Op == token.MUL {
